@@ -46,6 +46,8 @@ pub struct World {
     pub ready: HashMap<u64, VecDeque<Ready>>,
     pub next_uni_id: u64,
     pub next_bidi_id: u64,
+    /// results of successive poll_open_bidi calls (default when exhausted: Ok)
+    pub open_bidi: VecDeque<Ready>,
     /// receive scripts for successive locally opened bidirectional streams (default: nothing arrives)
     pub opened_bidi_events: VecDeque<Vec<RecvEvent>>,
     pub log: Log,
@@ -205,6 +207,11 @@ impl quic::OpenStreams<Bytes> for Mock {
     type SendStream = MockSend;
     fn poll_open_bidi(&mut self, _cx: &mut Context<'_>) -> Poll<Result<MockBidi, StreamErrorIncoming>> {
         let mut w = self.world.lock().unwrap();
+        match w.open_bidi.pop_front().unwrap_or(Ready::Ok) {
+            Ready::Pending => return Poll::Pending,
+            Ready::Err => return Poll::Ready(Err(StreamErrorIncoming::StreamTerminated { error_code: 0 })),
+            Ready::Ok => {}
+        }
         let id = w.next_bidi_id;
         w.next_bidi_id += 4;
         let events: VecDeque<RecvEvent> = w.opened_bidi_events.pop_front().unwrap_or_default().into();
